@@ -29,7 +29,7 @@ func VH_C04_reopen() {
 		db = Open(root) // abandon the old handle: every mutating call has committed
 	}
 	vhRichReads("C04.after", db, rows)
-	op := vhOps[vChoice("sop", len(vhOps))]
+	op := vhOps[vChoice("_sop", len(vhOps))]
 	vhRichSearch("C04.after", db, rows, field, op)
 }
 
